@@ -808,7 +808,49 @@ def norm_model(mo):
     return of_type, mo.get("lm", {}), ares
 
 
+def structured_field_asserts(ctx):
+    """oracle only: expectations about fields whose values are dictionaries / lists.  "Has the fields" means every expected key is
+    there with an EQUAL value: a part of a logged dictionary (or the empty one) is not equal to it."""
+    import unittest
+    from eliot import MemoryLogger, start_action
+    from eliot.testing import assertHasAction, assertHasMessage
+
+    mem = MemoryLogger()
+    payload = {"a": 1, "b": {"c": 2, "d": [1, 2]}}
+    with start_action(mem, "app:dact", conf={"x": 1, "y": {"z": 0}}) as act:
+        act.log("app:dmsg", payload=payload, n=1)
+        act.add_success_fields(result={"ok": True, "items": [1, 2, 3]})
+    cases = [("message", {"payload": payload}, True), ("message", {"payload": {"a": 1, "b": {"c": 2, "d": [1, 2]}}, "n": 1}, True),
+             ("message", {"payload": {"a": 1}}, False), ("message", {"payload": {}}, False), ("message", {"payload": {"a": 1, "b": {"c": 2}}}, False),
+             ("message", {"payload": {"a": 1, "b": {}}}, False), ("message", {"n": 1}, True),
+             ("start", {"conf": {"x": 1, "y": {"z": 0}}}, True), ("start", {"conf": {"x": 1}}, False), ("start", {"conf": {"y": {}}}, False),
+             ("end", {"result": {"ok": True, "items": [1, 2, 3]}}, True), ("end", {"result": {"ok": True}}, False), ("end", {"result": {}}, False),
+             ("end", {"result": {"ok": True, "items": [1, 2]}}, False)]
+    for kind, exp, want in cases:
+        tc = unittest.TestCase()
+        try:
+            if kind == "message":
+                assertHasMessage(tc, mem, "app:dmsg", exp)
+            elif kind == "start":
+                assertHasAction(tc, mem, "app:dact", True, startFields=exp)
+            else:
+                assertHasAction(tc, mem, "app:dact", True, endFields=exp)
+            got = True
+        except AssertionError:
+            got = False
+        except Exception as e:  # noqa
+            got = "raised %s" % type(e).__name__
+        case = dict(kind="structured-fields", where=kind, expected=exp)
+        ctx.case(case, nontrivial=not want, tags=["structured-fields"])
+        if got is not want:
+            ctx.violation("assert helper on a %s with dictionary-valued fields: expectation %r %s, but every expected key must be present with "
+                          "an equal value (so it should %s)" % (kind, exp, "passed" if got is True else "failed" if got is False else got,
+                                                                "pass" if want else "fail"), case, key=None)
+            return
+
+
 def run(ctx):
+    structured_field_asserts(ctx)
     rng = ctx.rng("gen")
     arng = ctx.rng("asserts")
     n = ctx.budget(300, 10000)
@@ -881,6 +923,9 @@ def run(ctx):
 
 def replay(ctx, obj):
     c = obj.get("case") or {}
+    if c.get("kind") == "structured-fields":
+        structured_field_asserts(ctx)
+        return
     case = c.get("prog")
     r = real_side(case, ctx.rng("replay"), c.get("asserts"))
     if "crash" in r:
